@@ -369,7 +369,12 @@ def run(ctx):
     except Exception as e:  # noqa: BLE001
         cstats, cfails = {"programs": 0}, []
         ctx.report("compile-harness", "correspondence", "compile-level harness crashed", {"error": str(e)[-1500:]}, found_input=False)
-    for key, name, detail in cfails[:2]:
+    unknown = 0
+    for key, name, detail in cfails:
+        if ctx.is_known(key) is None:
+            unknown += 1
+            if unknown > 2:
+                continue
         ctx.report(key, "counterexample", name, detail)
     if not info["ok"]:
         if not law_fail and not disagreements and not cfails:
